@@ -18,9 +18,11 @@ import time
 HERE = os.path.dirname(os.path.dirname(os.path.abspath(__file__)))
 ap = argparse.ArgumentParser()
 ap.add_argument("--only", default=None)
+ap.add_argument("--names", default=None, help="comma-separated directory names; only these")
 ap.add_argument("--out", default=os.path.join(HERE, "seeded", "REGRESSION.json"))
 a = ap.parse_args()
 only = set(a.only.split(",")) if a.only else None
+names_only = set(a.names.split(",")) if a.names else None
 
 
 def sh(cmd, **kw):
@@ -34,6 +36,8 @@ for name in names:
     d = os.path.join(HERE, "seeded", name)
     meta = json.load(open(os.path.join(d, "meta.json")))
     if only and meta["property"] not in only:
+        continue
+    if names_only and name not in names_only:
         continue
     catching = sorted(c for c, v in (meta.get("checks") or {}).items() if v.get("caught")) or [meta["property"]]
     W = f"/tmp/sr-{name}-{os.getpid()}"
